@@ -26,7 +26,7 @@ REAL = ["bec2format.bf3file (writer, reader, text envelope)", "bec2format.bytes_
         "register_crypto_plugin.AES128Proxy", "pyaes"]
 STUBS = ["medium: SimFS/SimTextWriter/SimTextReader (volatile until close/flush, CRLF translation)",
          "thread scheduling of the concurrent-callers arm: Sched (sim/sched.py, sim/conc.py)"]
-PROBES = ["runs-with-assertions-disabled", "file-of-several-hundred-KiB", "same-component-object-twice", "more-than-255-components", "concurrent-callers", "concurrent-callers-same-key", "rewrite-of-read-back-object", "unchecked-read-with-other-key", "read-after-overwrite-shorter", "read-after-failed-write-retry", "crlf-on-medium",
+PROBES = ["runs-with-assertions-disabled", "refused-object-over-existing-file", "file-of-several-hundred-KiB", "same-component-object-twice", "more-than-255-components", "concurrent-callers", "concurrent-callers-same-key", "rewrite-of-read-back-object", "unchecked-read-with-other-key", "read-after-overwrite-shorter", "read-after-failed-write-retry", "crlf-on-medium",
           "payload-multiple-of-16", "payload-trailing-zero", "writer-rejected-oversize",
           "read-after-restart"]
 ASSUMPTIONS = ["input breadth is that of the seeded generator (sampling)",
@@ -201,8 +201,13 @@ def run(case):
                     out.ev("write", name, via, "crashed", len(fs.files.get(name, b"")))
                     continue
                 except Exception as e:
-                    acked[name] = None
                     fired = len(fs.fired) > nfired
+                    if fired or via != "path" or prev is None:
+                        acked[name] = None
+                    else:
+                        # the writer refused the object itself (nothing was injected): what the path held
+                        # before must still be there - the writer never leaves a file its reader rejects
+                        out.probes["refused-object-over-existing-file"] += 1
                     out.ev("write", name, via, "failed", type(e).__name__, fired)
                     if fired:
                         out.fired["enospc"] += 1
